@@ -107,6 +107,12 @@ def pev_filled(data_term):
                     and v[1][1] == ("sub", x[1], ("const", "percent_expected_vote"))
                     and any(y[0] == "call" and y[1][0] == "attr" and y[1][2] == "merge" for y in ir.walk(x[1]))):
                 return True
+        # the same fill written on the frame: <merged frame>.fillna({'percent_expected_vote': <number>}) / .fillna(<number>)
+        if x[0] == "call" and x[1][0] == "attr" and x[1][2] == "fillna" and any(y[0] == "call" and y[1][0] == "attr" and y[1][2] == "merge" for y in ir.walk(x[1][1])):
+            arg = x[2][0] if x[2] else dict(x[3]).get("value")
+            num = lambda c_: c_ is not None and c_[0] == "const" and isinstance(c_[1], (int, float)) and not isinstance(c_[1], bool) and c_[1] == c_[1]  # noqa: E731
+            if arg is not None and arg[0] == "dict" and any(k_ == ("const", "percent_expected_vote") and num(v_) for k_, v_ in arg[1]):
+                return True
     return False
 
 
